@@ -18,7 +18,7 @@
    containers holds a default-constructed element) is a fact about the implementation that
    the property text does not fix; it is defined next to the model (`sent_count`, `sbase`,
    LifeModel.v), not here, and the harness measures it on an empty container.  *)
-From Coq Require Import ZArith List Bool Arith.
+From Coq Require Import ZArith NArith List Bool Arith.
 Import ListNotations.
 
 Inductive kind := KArray | KList | KMap | KMultiMap | KHashMap | KHashSet | KPoolList | KPoolMap.
@@ -124,12 +124,22 @@ Inductive op :=
                                    (* front: List::prepend(v) / HashMap::prepend(k,v) / HashSet::prepend(k);
                                       back: List::append(v) / HashMap::append(k,v) / HashSet::append(k) /
                                       PoolMap::append(k) - the arguments may be the container's own elements *)
-| OInsTie (x : nat) (p : pos) (ka va : arg) (j : nat).
+| OInsTie (x : nat) (p : pos) (ka va : arg) (j : nat)
                                    (* MultiMap::insert(position, key, value) in the case hint_tie (below): the new
                                       element lands behind the hinted one, j places further on.  WHICH j - any place
                                       that keeps the keys in order - is decided by the shape of the search tree
                                       (C01), which this reference object does not know: j is an input, like the
                                       answers of a kernel (the check takes it from the implementation's run) *)
+| ORemOut (x : nat) (i : N) (r : option nat).
+                                   (* round 6 - Array::remove(usize index) with an index that is NOT in the array
+                                      (size <= index, any usize).  The containers accept the call, so the lifecycle
+                                      clauses of the property hold across it; what the array CONTAINS afterwards is
+                                      not this property's business (C03), and this reference object leaves it open
+                                      as far as a removing call can go: r = None - nothing is removed (what the code
+                                      does), r = Some j - element j is removed (e.g. an implementation that clamps
+                                      the index).  r is an input taken from the implementation's run; whichever it
+                                      is, the instances that exist afterwards are exactly one per element and key
+                                      the containers then hold (sstored), nothing else was destroyed. *)
 
 (* ---------------------------------------------------------------------------------------- *)
 (* pure list helpers (shared with the model)                                                  *)
@@ -255,6 +265,10 @@ Definition sarg_val (s : sstate) (a : arg) : option Z :=
 (* which arguments an insertion into a container of kind k looks at *)
 Definition need_key (k : kind) : bool := has_key k.
 Definition need_val (k : kind) : bool := has_val k && negb (val_default k).
+
+(* Array::remove(index) with size <= index: accepted by arrays only; the outcome r is open *)
+Definition out_idx (k : kind) (len : nat) (i : N) (r : option nat) : option (option nat) :=
+  if is_array k && (N.of_nat len <=? i)%N then Some r else None.
 
 (* the index an element-removing entry point removes, when the kind offers it and the call is
    defined (removeFront / removeBack of an empty container are not) *)
@@ -476,6 +490,16 @@ Definition spec_step (s : sstate) (o : op) : bool * sstate :=
           else (false, s)
       | None => (false, s)
       end
+  | ORemOut x i r =>
+      match sget s x with
+      | Some (k, l) =>
+          match out_idx k (length l) i r with
+          | Some None => (true, s)
+          | Some (Some j) => if j <? length l then (true, sset s x (Some (k, remove_at j l))) else (false, s)
+          | None => (false, s)
+          end
+      | None => (false, s)
+      end
   | OInsVia x f ka va =>
       match sget s x with
       | Some (k, l) =>
@@ -505,7 +529,7 @@ Definition writes (o : op) : list nat :=
   | ONew x _ | ODel x | OCopyNew x _ | OAssign x _ | OClear x | OIns x _ _ _ | ORemAt x _
   | ORemKey x _ | OAddAll x _ _ | ORemAll x _ | OReserve x _ | OResize x _ _
   | OAppendRange x _ _ _ | ORemVia _ x _ | ONewCap x _ _ | OFind x _ | OEmplace x _ | OAppendVals x _
-  | OInsHint x _ _ _ | OSort x | OInsVia x _ _ _ | OInsTie x _ _ _ _ => [x]
+  | OInsHint x _ _ _ | OSort x | OInsVia x _ _ _ | OInsTie x _ _ _ _ | ORemOut x _ _ => [x]
   | OSwap x y => [x; y]
   end.
 
@@ -515,7 +539,7 @@ Definition arg_vars (a : arg) : list nat :=
 Definition mentions (o : op) : list nat :=
   match o with
   | ONew x _ | ODel x | OClear x | ORemAt x _ | OReserve x _ | ORemVia _ x _ | ONewCap x _ _
-  | OAppendVals x _ | OSort x => [x]
+  | OAppendVals x _ | OSort x | ORemOut x _ _ => [x]
   | OCopyNew x y | OAssign x y | OSwap x y | ORemAll x y | OAddAll x _ y | OAppendRange x y _ _ => [x; y]
   | OIns x _ ka va => x :: arg_vars ka ++ arg_vars va
   | ORemKey x ka => x :: arg_vars ka
